@@ -81,6 +81,11 @@ def run(ctx):
         text = make_input(rng, [PAIRS[2]])
         jobs.append(dict(text=text, opts=['--strategy', 'hierarchical', '-j', '2', '--timeout', '0.4', '--ignore-output', '--disable-all', '--erase-node'],
                          cmd=[FAULTY, 'hang'], env={}, timeout=400, mode='hang', which=[PAIRS[2]]))
+    # the golden run itself exhausts the memory limit, and no time limit is given: --memout alone must stop it
+    for i in range(2 if ctx.thorough else 1):
+        text = make_input(rng, [])
+        jobs.append(dict(text=text, opts=['--strategy', ['ddmin', 'hierarchical'][i % 2], '-j', str(1 + i), '--memout', '200', '--ignore-output', '--disable-all', '--erase-node'],
+                         cmd=[FAULTY, 'alloc'], env={}, timeout=90, mode='alloc', which=[]))
     t0 = time.time()
     runs = e2e.run_many([{k: v for k, v in j.items() if k not in ('mode', 'which')} for j in jobs], workers=6)
     for j, r in zip(jobs, runs):
@@ -90,6 +95,8 @@ def run(ctx):
         wall = (r.events[-1]['t'] - r.events[0]['t']) / 1e9 if r.events else 0
         faulty_tests = sum(1 for ln in r.cmdlog if len(ln) > 1 and ln[1] != 'none')
         problems = []
+        if j['mode'] == 'alloc' and golden and (golden[0].get('runtime') or 0) > 20:
+            problems.append(f"the golden run ran for {golden[0]['runtime']:.0f} s under --memout 200 although the command reserves 1.5 GB at once: the memory limit was not in force")
         if r.hung:
             problems.append('ddSMT did not finish (stalled)')
         elif r.rc != 0:
